@@ -273,7 +273,7 @@ def execute(item):
     versions = [None] if tier == 'quick' else [None, '1.0', '2.0', '3.0', '4.0']
     if tier == 'quick' and fname in ('bbb_v7_enc', 'synenc_a1_enc', 'synmk_v1_enc'):
         versions = [None, '1.0', '4.0']       # 1.0 (PIFF) is the version that changes which hooks are installed
-    la_urls = [None] if tier == 'quick' else [None, 'https://lic.example/pr?a=1&b=2']
+    la_urls = [None] if tier == 'quick' and fname != 'bbb_v7_enc' else [None, 'https://lic.example/pr?a=1&b=2']
     for rname, tmpl in routes:
         for mode in ('live', 'vod'):
             for drm, sel in sels:
